@@ -24,6 +24,8 @@ use super::htx;
 #[derive(Debug)]
 pub struct FileDbXxxInner<KT: DbMapKeyType> {
     dirty: bool,
+    // written by flush() but not yet synchronized to storage by sync_all()/sync_data().
+    unsynced: bool,
     //
     key_file: key::KeyFile<KT>,
     val_file: val::ValueFile,
@@ -51,6 +53,7 @@ impl<KT: DbMapKeyType> FileDbXxxInner<KT> {
             htx_file,
             // the headers of newly created files are only in the buffers yet.
             dirty: key_is_new || val_is_new || htx_is_new,
+            unsynced: false,
             _phantom: std::marker::PhantomData,
         })
     }
@@ -249,28 +252,31 @@ impl<KT: DbMapKeyType> DbXxxBase for FileDbXxxInner<KT> {
             self.key_file.flush()?;
             self.htx_file.flush()?;
             self.dirty = false;
+            self.unsynced = true;
         }
         Ok(())
     }
     #[inline]
     fn sync_all(&mut self) -> Result<()> {
-        if self.is_dirty() {
+        if self.is_dirty() || self.unsynced {
             // save all data and meta
             self.val_file.sync_all()?;
             self.key_file.sync_all()?;
             self.htx_file.sync_all()?;
             self.dirty = false;
+            self.unsynced = false;
         }
         Ok(())
     }
     #[inline]
     fn sync_data(&mut self) -> Result<()> {
-        if self.is_dirty() {
+        if self.is_dirty() || self.unsynced {
             // save all data
             self.val_file.sync_data()?;
             self.key_file.sync_data()?;
             self.htx_file.sync_data()?;
             self.dirty = false;
+            self.unsynced = false;
         }
         Ok(())
     }
